@@ -199,23 +199,29 @@ def oracle_encoded_strings(ctx, r, c, hs, op, loops, fail):
                     fail("encoded:does-not-commute-with-loop", dict(inp, face=list(f)), "commute", str(w))
 
 
-def oracle_dense(ctx, r, c, hs, fail):
+def oracle_dense(ctx, r, c, hs, fail, unit_exp=0):
     """dense reference from the property text: Hermitian matrix, commutes with every loop product,
     loop products identity/involution, spectrum on the joint +1 eigenspace = fermionic spectrum with
-    uniform multiplicity"""
+    uniform multiplicity.
+    unit_exp: the spectra are compared in units of 2^unit_exp (both matrices are divided by that power of two,
+    which is exact), so that "same spectrum" means the same thing for an operator given in small or large units:
+    the tolerance is relative to the size of the operator, never an absolute 1e-9."""
     from scipy import sparse
     import qib
     from qib.transform.compact_encoding import _encode_edge_operator, compact_encode_field_operator
     inp = {"kind": "enc", "shape": [r, c], "hs": [np.asarray(h).tolist() for h in hs]}
+    if unit_exp:
+        inp["unit_exp"] = unit_exp
+    unit = 2.0 ** unit_exp
     # the reference spectrum comes from a separately built operator, computed before the encoder runs
     H0, _ = fermi_operator(r, c, hs)
-    ref = np.linalg.eigvalsh(H0.as_matrix().toarray())
+    ref = np.linalg.eigvalsh(H0.as_matrix().toarray() / unit)
     H, latt = fermi_operator(r, c, hs)
     Henc, le = compact_encode_field_operator(H)
     n = le.nsites
     D = 2 ** n
     I = sparse.identity(D, format="csr", dtype=complex)
-    M = sparse.csr_matrix(Henc.as_matrix(), dtype=complex)
+    M = sparse.csr_matrix(Henc.as_matrix(), dtype=complex) / unit
     if M.shape != (D, D):
         fail("encoded:wrong-dimension", inp, D, M.shape)
         return
@@ -250,7 +256,7 @@ def oracle_dense(ctx, r, c, hs, fail):
         fail("spectrum:code-space-dimension-not-a-multiple-of-fock-dimension", inp, "k * 2^%d" % N, dimc)
         return
     m = dimc // 2 ** N
-    shift = float(sum(np.abs(np.asarray(h, dtype=float)).sum() for h in hs)) + 1.0
+    shift = float(sum(np.abs(np.asarray(h, dtype=float) / unit).sum() for h in hs)) + 1.0
     ev = np.linalg.eigvalsh((P @ (M + shift * I) @ P).toarray())
     ev = np.sort(ev[ev > 0.5] - shift)
     want = np.sort(np.repeat(ref, m))
@@ -588,6 +594,67 @@ def split_terms(rng, r, c, kind):
     return parts
 
 
+# ------------------------------------------------------------------------------- coefficient magnitudes
+# every comparison of the encoder with a coefficient must be exact: an amplitude is absent iff it is 0.0, however
+# small it is.  Scales 2^e over the whole binary64 range (dyadic data: every weight, every sum stays exact).
+SCALE_EXPS = [-1060, -1000, -300, -100, -60, -40, -34, -30, -27, -26, -20, -10, 30, 100, 1000]
+
+
+def scale_h(h, e):
+    return [[float(np.ldexp(v, e)) if v else 0.0 for v in row] for row in h]
+
+
+def scale_family(rng, thorough):
+    """(r, c, hs, tag, e): e = common exponent for homogeneity / the dense unit, or None for mixed scales"""
+    out = []
+    small = [(1, 2), (2, 1), (2, 2), (2, 3), (3, 2), (1, 4), (3, 3)]
+    for e in SCALE_EXPS:
+        picks = small if thorough else rng.sample(small, 3)
+        for (r, c) in picks + [rng.choice([(4, 4), (3, 5), (5, 5), (2, 7)])]:
+            out.append((r, c, [scale_h(rand_h(rng, r, c, rng.choice(["nn", "nn", "hop-only"])), e)], "uniform", e))
+        r, c = rng.choice(small[2:])
+        out.append((r, c, [scale_h(h, e) for h in split_terms(rng, r, c, rng.choice(["onsite+hop", "split3", "trace-first", "repeat"]))],
+                    "uniform-multi", e))
+    for _ in range(40 if thorough else 14):
+        r, c = rng.choice(small + [(4, 4), (3, 5)])
+        N = r * c
+        # an O(1) operator with weak links: single hopping amplitudes far below the rest
+        h = rand_h(rng, r, c, "nn")
+        nn = [(i, j) for i in range(N) for j in range(i + 1, N) if grid_adjacent(c, i, j)]
+        for (i, j) in rng.sample(nn, max(1, len(nn) // 3)):
+            h[i][j] = h[j][i] = float(np.ldexp(rng.choice(VALS), rng.choice([-1070, -500, -80, -40, -30, -28, -27])))
+        out.append((r, c, [h], "weak-links", None))
+        # every hopping amplitude at its own scale, diagonal at one common scale (the identity weight is a sum)
+        h = rand_h(rng, r, c, "nn")
+        ed = rng.choice([-200, -40, -27, 0, 20])
+        for i in range(N):
+            h[i][i] = float(np.ldexp(h[i][i], ed)) if h[i][i] else 0.0
+        for (i, j) in nn:
+            if h[i][j]:
+                h[i][j] = h[j][i] = float(np.ldexp(h[i][j], rng.choice([-1000, -300, -60, -33, -27, -26, -8, 0, 12, 200])))
+        out.append((r, c, [h], "mixed", None))
+    return out
+
+
+def oracle_homog(ctx, r, c, hs, e, fail):
+    """encode(2^e h) = 2^e encode(h): the same strings in the same order, every weight scaled exactly
+    (hs is the SCALED operator, e its exponent; the base operator 2^-e hs has entries of order one)"""
+    from qib.transform.compact_encoding import compact_encode_field_operator
+    inp = {"kind": "enc-homog", "shape": [r, c], "hs": [np.asarray(h).tolist() for h in hs], "e": e}
+    try:
+        got = raw_list(compact_encode_field_operator(fermi_operator(r, c, hs)[0])[0])
+        base = raw_list(compact_encode_field_operator(fermi_operator(r, c, [scale_h(h, -e) for h in hs])[0])[0])
+    except Exception as ex:
+        fail("encoder:crash:" + type(ex).__name__, inp, "operator", repr(ex))
+        return
+    want = [[z, x, q, float(np.ldexp(re, e)), float(np.ldexp(im, e))] for z, x, q, re, im in base]
+    if got != want:
+        k = next((k for k, (a, b) in enumerate(zip(got, want)) if a != b), min(len(got), len(want)))
+        fail("encoder:not-homogeneous-in-the-coefficients", inp, "encode(2^%d h) = 2^%d encode(h), string by string" % (e, e),
+             "%d vs %d strings; first difference at position %d: %r vs %r"
+             % (len(got), len(want), k, got[k] if k < len(got) else None, want[k] if k < len(want) else None))
+
+
 def shapes(maxq=None):
     out = [(r, c) for r in range(1, 6) for c in range(1, 6) if r * c <= 20]
     return out
@@ -780,6 +847,51 @@ def run(ctx):
                 oracle_additive(ctx, r, c, hs, fail)
     ctx.log("big shapes %.1fs" % (time.time() - t_big))
 
+    # ---------------------------------------------------------------- coefficient magnitudes (binary64 range)
+    ctx.rules.append(
+        "coefficient magnitudes: the same generators scaled by 2^e, e in %s (uniformly small / large single- and multi-term "
+        "operators), O(1) operators with single weak links down to 2^-1070, every hopping amplitude at its own scale; oracles: "
+        "exact closed form, string-level Hermiticity / loop commutation, additivity, homogeneity encode(2^e h) = 2^e encode(h) "
+        "string by string, correspondence with the model (exact rationals), dense spectrum on the code space measured in "
+        "units of 2^e (relative, never an absolute tolerance)" % (SCALE_EXPS,))
+    t_sc = time.time()
+    ndense = {}
+    for (r, c, hs, tag, e) in scale_family(rng, ctx.thorough):
+        ctx.count("scale_%s" % tag)
+        if e is not None:
+            ctx.count("scale_e=%d" % e)
+        desc = {"kind": "enc", "shape": [r, c], "hs": hs}
+        try:
+            H, _ = fermi_operator(r, c, hs)
+            op, le = compact_encode_field_operator(H)
+        except Exception as ex:
+            fail("encoder:refuses-admissible-operator" if isinstance(ex, ValueError) else "encoder:crash:" + type(ex).__name__,
+                 desc, "an encoded operator", repr(ex))
+            continue
+        ctx.nontriv(("scale", r, c, tag, e))
+        loops = loops_of.get((r, c))
+        if loops is not None:
+            oracle_encoded_strings(ctx, r, c, hs, op, loops, fail)
+        oracle_closed_form(ctx, r, c, hs, op, fail)
+        if len(hs) >= 2:
+            oracle_additive(ctx, r, c, hs, fail)
+        if e is not None:
+            oracle_homog(ctx, r, c, hs, e, fail)
+        # the model on the same data (exact rationals; literals kept small)
+        if r * c <= 6 and (e is None or abs(e) <= 100) and all(2.0 ** -110 <= abs(v) <= 2.0 ** 110 for h in hs for row in h for v in row if v):
+            add("CEnc %s %s %s %s" % (ct.z(r), ct.z(c), ct.lst([hmat_term(h) for h in hs]),
+                                      ct.opt(ct.lst([ct.pair(p3_of(w.paulis), ct.qi(w.weight)) for w in op.pstrings]))),
+                {"op": "encode", "shape": [r, c], "kind": "scale-" + tag, "e": e, "hs": hs}, True)
+        # dense spectrum in units of 2^e (uniform scales within the range where the dense arithmetic is unproblematic)
+        if e is not None and -320 <= e <= 320 and nqubits(r, c) <= 8 and ndense.get(e, 0) < (3 if ctx.thorough else 1):
+            ndense[e] = ndense.get(e, 0) + 1
+            ctx.count("scale_dense")
+            try:
+                oracle_dense(ctx, r, c, hs, fail, unit_exp=e)
+            except Exception as ex:
+                fail("encoder:crash:" + type(ex).__name__, desc, "operator", repr(ex))
+    ctx.log("coefficient scales %.1fs" % (time.time() - t_sc))
+
     # ---------------------------------------------------------------- integer-dtype coefficient matrices
     for (r, c) in [(1, 2), (2, 3), (3, 2)]:
         latt0 = qib.lattice.IntegerLattice((r, c), pbc=False)
@@ -875,6 +987,8 @@ def replay(ctx, data):
         oracle_strings_stable(ctx, r, c, fail)
     elif kind == "enc-multi":
         oracle_additive(ctx, r, c, inp["hs"], fail)
+    elif kind == "enc-homog":
+        oracle_homog(ctx, r, c, inp["hs"], inp["e"], fail)
     elif kind == "operand":
         from qib.transform.compact_encoding import compact_encode_field_operator
         H, _ = fermi_operator(r, c, inp["hs"])
@@ -892,7 +1006,7 @@ def replay(ctx, data):
         dense_sig = sig.startswith(("spectrum:", "loop:matrix", "loops:matrices", "encoded:matrix", "encoded:wrong-dimension"))
         try:
             if dense_sig and nqubits(r, c) <= 12:
-                oracle_dense(ctx, r, c, hs, fail)
+                oracle_dense(ctx, r, c, hs, fail, unit_exp=inp.get("unit_exp", 0))
             H, _ = fermi_operator(r, c, hs)
             op, le = compact_encode_field_operator(H)
             oracle_closed_form(ctx, r, c, hs, op, fail)
@@ -900,7 +1014,7 @@ def replay(ctx, data):
             if loops is not None:
                 oracle_encoded_strings(ctx, r, c, hs, op, loops, fail)
             if not dense_sig and nqubits(r, c) <= 12:
-                oracle_dense(ctx, r, c, hs, fail)
+                oracle_dense(ctx, r, c, hs, fail, unit_exp=inp.get("unit_exp", 0))
         except Exception as e:
             hits.append("encoder:crash:" + type(e).__name__)
             hits.append("encoder:refuses-admissible-operator")
